@@ -93,10 +93,16 @@ struct Runner
   bool consumer_committed{true};  // commit_read was the consumer's last queue action after a finish_read
   bool producer_committed{true};  // commit_write followed the last finish_write
 
+  std::vector<std::string> pending_oracles; // printed after the current op line is complete
   void oracle(std::string const& what)
   {
     ++g_oracle_violations;
-    std::cout << "ORACLE " << what << " trace=" << id << " after-line=" << line_no << "\n";
+    pending_oracles.push_back("ORACLE " + what + " trace=" + id + " after-line=" + std::to_string(line_no));
+  }
+  void flush_oracles()
+  {
+    for (auto const& o : pending_oracles) { std::cout << o << "\n"; }
+    pending_oracles.clear();
   }
 
   void init(std::string const& trace_id, uint64_t capacity, unsigned percent, bool shift, std::string const orders[4], bool drain)
@@ -109,6 +115,8 @@ struct Runner
     base = q->_storage;
     wpos_loc = q->_atomic_writer_pos.id();
     rpos_loc = q->_atomic_reader_pos.id();
+    world().set_owner(wpos_loc, 0);
+    world().set_owner(rpos_loc, 1);
     base_shift = 0;
     if (shift)
     {
@@ -178,6 +186,7 @@ struct Runner
   // ---- API calls -------------------------------------------------------------------------------
   void prepare_write(uint64_t n, int k)
   {
+    flush_oracles();
     ++line_no;
     world().begin_call(0, {k});
     std::byte* p = q->prepare_write(static_cast<T>(n));
@@ -208,6 +217,7 @@ struct Runner
 
   void finish_write(uint64_t n)
   {
+    flush_oracles();
     ++line_no;
     world().begin_call(0);
     if (have_grant && n == grant_n && n >= 1)
@@ -243,6 +253,7 @@ struct Runner
 
   void commit_write()
   {
+    flush_oracles();
     ++line_no;
     world().begin_call(0);
     q->commit_write();
@@ -254,6 +265,7 @@ struct Runner
 
   void prepare_read(int k)
   {
+    flush_oracles();
     ++line_no;
     world().begin_call(1, {k});
     std::byte* p = q->prepare_read();
@@ -307,6 +319,7 @@ struct Runner
 
   void finish_read(uint64_t n)
   {
+    flush_oracles();
     ++line_no;
     world().begin_call(1);
     q->finish_read(static_cast<T>(n));
@@ -323,6 +336,7 @@ struct Runner
 
   void commit_read()
   {
+    flush_oracles();
     ++line_no;
     world().begin_call(1);
     q->commit_read();
@@ -335,6 +349,7 @@ struct Runner
 
   void empty(int k)
   {
+    flush_oracles();
     ++line_no;
     world().begin_call(1, {k});
     bool const e = q->empty();
@@ -454,10 +469,10 @@ struct Runner
   void replay_op(std::vector<std::string> const& w)
   {
     if (w[0] == "pw" && w.size() >= 3) { prepare_write(std::stoull(w[1]), std::stoi(w[2])); }
-    else if (w[0] == "fw" && w.size() >= 2) { finish_write(std::stoull(w[1])); }
+    else if (w[0] == "fw" && w.size() >= 2) { if (have_grant) { finish_write(grant_n); } else { std::cout << "# skipped fw (no grant)\n"; } }
     else if (w[0] == "cw") { commit_write(); }
     else if (w[0] == "pr" && w.size() >= 2) { prepare_read(std::stoi(w[1])); }
-    else if (w[0] == "fr" && w.size() >= 2) { finish_read(reading ? read_n : std::stoull(w[1])); }
+    else if (w[0] == "fr" && w.size() >= 2) { if (reading) { finish_read(read_n); } else { std::cout << "# skipped fr (nothing offered)\n"; } }
     else if (w[0] == "cr") { commit_read(); }
     else if (w[0] == "em" && w.size() >= 2) { empty(std::stoi(w[1])); }
     else { std::cout << "BAD-REPLAY-OP " << w[0] << "\n"; }
@@ -507,6 +522,7 @@ int main(int argc, char** argv)
         uint64_t const caps[] = {8, 16, 32, 64, 128};
         r.init(tid + "u8", caps[rng.below(5)], pct, shift, orders, drain);
         r.generate(rng, nops);
+        r.flush_oracles();
         break;
       }
       case 1:
@@ -515,6 +531,7 @@ int main(int argc, char** argv)
         uint64_t const caps[] = {16, 64, 256, 1024, 4096, 32768};
         r.init(tid + "u16", caps[rng.below(6)], pct, shift, orders, drain);
         r.generate(rng, nops);
+        r.flush_oracles();
         break;
       }
       default:
@@ -523,6 +540,7 @@ int main(int argc, char** argv)
         uint64_t const caps[] = {16, 64, 128, 1024, 4096};
         r.init(tid + "u64", caps[rng.below(5)], pct, shift, orders, drain);
         r.generate(rng, nops);
+        r.flush_oracles();
         break;
       }
       }
@@ -558,6 +576,8 @@ int main(int argc, char** argv)
         }
         w[9] = drain;
         bool const small = w[4] == "256";
+        if (r8) { r8->flush_oracles(); }
+        if (r64) { r64->flush_oracles(); }
         r8.reset();
         r64.reset();
         if (small) { r8 = std::make_unique<Runner<uint8_t>>(); r8->init(w[1], cap, pct, false, orders, w[9] == "1"); }
@@ -567,6 +587,8 @@ int main(int argc, char** argv)
       if (r8) { r8->replay_op(w); }
       else if (r64) { r64->replay_op(w); }
     }
+    if (r8) { r8->flush_oracles(); }
+    if (r64) { r64->flush_oracles(); }
     print_tail();
     return g_oracle_violations ? 3 : 0;
   }
